@@ -33,7 +33,7 @@ TOL = 1e-6
 
 def floors(tier):
     return {"trajectories": 200, "evaluations_compared": 2500, "multi_trial_searches_compared": 150, "probes": 80, "probe_evaluations_compared": 300,
-            "constant_probes": 10, "box_final_values_compared": 60, "__nontrivial__": 120}
+            "constant_probes": 10, "trajectories_with_gradient_reusing_forward_state": 50, "box_final_values_compared": 60, "__nontrivial__": 120}
 
 
 def cases(tier, seed):
@@ -44,7 +44,7 @@ def cases(tier, seed):
         yield {"kind": "traj", "problem": {"family": fam, "n": int(rng.integers(1, 9)), "seed": int(rng.integers(0, 2**31 - 1)),
                                            "cond": float(np.exp(rng.uniform(0, np.log(1e3)))), "box": "none", "start": "interior"},
                "maxcor": int(rng.integers(1, 9)), "x0scale": float(gen.pick(rng, [0.5, 1.0, 2.0])), "hostile": bool(i % 3 == 0),
-               "fscale": float(10.0 ** rng.uniform(0, 13)) if i % 5 == 1 else 1.0, "prior_is_x0": bool(i % 7 == 2)}
+               "fscale": float(10.0 ** rng.uniform(0, 13)) if i % 5 == 1 else 1.0, "prior_is_x0": bool(i % 7 == 2), "adjoint": bool(i % 4 == 3)}
     npb = 160 if tier == "quick" else 4000
     for i in range(npb):
         yield {"kind": "probe", "rho": float(gen.pick(rng, [2e-4, 5e-4, 8e-4, 1.3e-3, 2e-3, 5e-3])), "sigma": float(gen.pick(rng, [0.6, 0.8, 0.95])),
@@ -62,6 +62,19 @@ def cases(tier, seed):
 
 
 # ---------------------------------------------------------------------------
+def adjoint_pair(f, g):
+    st = {}
+
+    def ff(z):
+        st["x"] = np.array(z, copy=True)
+        return f(z)
+
+    def gg(z):
+        return g(np.array(st["x"], copy=True)) if "x" in st else g(z)
+
+    return ff, gg
+
+
 def scipy_trace(f, g, x0, maxcor, maxiter=12, bounds=None, gtol=1e-14):
     from scipy.optimize import minimize
 
@@ -282,6 +295,12 @@ def run(spec):
             gref = lambda z: gbase(z) + lam * (z - prior_ref)
         else:
             fref, gref = fobj, gobj
+        if spec.get("adjoint"):
+            # forward/adjoint pattern: the gradient routine reuses the state left by the preceding objective call (the package offers no
+            # combined value-and-gradient callable); each implementation gets its own pair
+            out.count("trajectories_with_gradient_reusing_forward_state")
+            fobj, gobj = adjoint_pair(fobj, gobj)
+            fref, gref = adjoint_pair(fref, gref)
         ppts, searches, pres, consts, ic = port_trace(fobj, gobj, x0_port, spec["maxcor"], hostile=bool(spec.get("hostile")), x0_same_object=bool(spec.get("prior_is_x0")))
         if spec.get("hostile"):
             out.count("trajectories_with_reused_gradient_buffer")
